@@ -20,7 +20,7 @@ var chk *mc.Check
 func main() {
 	chk = mc.New("C16", "model_checking")
 	chk.Rule = "BFS over operation histories on the real BitMatrix/BitArray with a naive bool-grid model; a state is (dims, raw words); non-trivial = distinct canonical states reached in which at least one bit is set and at least one is clear"
-	chk.Assume("operations are called with in-range arguments, as the property states; SetBulk values have no bits beyond the array size; rows given to SetRow have the matrix width")
+	chk.Assume("operations are called with in-range arguments, as the property states; SetBulk values have no bits beyond the array size; rows given to SetRow have at least the matrix width (a longer row contributes its first `width` bits; shorter rows have no unambiguous model and are not used)")
 	if chk.ReplayFile() != "" {
 		replay(chk.ReplayFile())
 		chk.Finish()
